@@ -140,7 +140,7 @@ def make_crit(R, evaluator_config, spec):
 def make_pf(R, evaluator_config, spec):
     return R["PerceptionPassFailConfig"](
         evaluator_config=evaluator_config,
-        target_labels=list(spec["labels"]),
+        target_labels=None if spec["labels"] is None else list(spec["labels"]),
         matching_threshold_list=None if spec.get("thr") is None else list(spec["thr"]),
     )
 
@@ -277,7 +277,7 @@ class Lane:
             cfg["target_uuids"] = [self.token_map.get(u, u) for u in cfg["target_uuids"]]
         self.config = R["PerceptionEvaluationConfig"](
             dataset_paths=[d],
-            frame_id=self.frame,
+            frame_id=self.frame.upper() if cfg.get("frame_upper") else self.frame,
             result_root_directory=os.path.join(ctx.root, "result_%s" % self.name),
             evaluation_config_dict=config_dict(cfg),
             load_raw_data=bool(ctx.plan["storage"].get("raw")),
@@ -333,7 +333,7 @@ class Lane:
                 position=(float(pos[0]), float(pos[1]), float(pos[2])),
                 orientation=Quaternion(q[0], q[1], q[2], q[3]),
                 shape=R["Shape"](R["ShapeType"].BOUNDING_BOX, tuple(float(v) for v in o["size"])),
-                velocity=None,
+                velocity=tuple(o["vel"]) if o.get("vel") else None,
                 semantic_score=float(o["conf"]),
                 semantic_label=self.config.label_converter.convert_label(o["label"]),
                 uuid=uuid,
